@@ -7,51 +7,78 @@ Driver for C10: replays the traces observed by harness/h_C10.cpp on the IR seman
 
   case <k>                 -> case <k>            (fresh circuit)
   fresh                    -> (nothing)           a fresh copy of the circuit: flag clear
-  begin <placement call>   -> (nothing)           start recording the stage trace
+  begin <placement call>   -> (nothing)           outside any call: start recording the stage trace;
+                                                  inside a callback: a nested placement call starts
   cb / cbend / cbthrow     -> (nothing)           one callback invocation, ending normally / by throwing
-  set <name> <nc> <nn> …   -> inside a callback: recorded; outside: `set <name> <outcome>` at once
+  set <name> <nc> <nn> …   -> inside a call: recorded; outside: `set <name> <outcome>` at once
   stagethrow / stagereturn -> (nothing)           how the stage ended when no callback threw
-  end                      -> the recorded setter lines, then `end ok|throw inuse=<0|1>`
+  end                      -> of a nested call: recorded; of the outermost call: the lines of the trace
+                              (setter lines, `end ok|throw inuse=<0|1>` of each nested call), then
+                              `end ok|throw inuse=<0|1>`
 -/
 open ColoVerif ColoVerif.Busy ColoVerif.BusyIO ColoVerif.Gen Driver
 
 structure DS where
   st : St := ⟨false, []⟩
   call : Option String := none
-  cbs : List Callback := []          -- completed callbacks, in order
-  acts : Option (List SetterCall) := none   -- the open callback
-  stageThrows : Bool := false
+  depth : Nat := 0
+  evs : List (List String) := []     -- events of the open outermost call, most recent first
 
-def endLine (r : Res) : String :=
-  let o := match r.out with
-    | .normal => "ok" | .returned => "ok" | .thrown => "throw" | .aborted => "abort" | .stuck => "stuck"
-  "end " ++ o ++ " inuse=" ++ (if r.st.inUse then "1" else "0")
+def dropEnd : List (List String) → List (List String)
+  | ["end"] :: r => r
+  | r => r
+
+/-- The trace of one stage from the recorded events, up to and including its `end`; returns the
+rest.  `fuel` ≥ number of events. -/
+def parseTr : Nat → List (List String) → Tr × List (List String)
+  | 0, r => (.done false, r)
+  | _, [] => (.done false, [])
+  | fuel + 1, ev :: r =>
+    match ev with
+    | ["end"] => (.done false, r)
+    | ["stagethrow"] => (.done true, dropEnd r)
+    | ["stagereturn"] => (.done false, dropEnd r)
+    | ["cb"] => parseTr fuel r
+    | ["cbend"] => ((Tr.cbEnd false (parseTr fuel r).1), (parseTr fuel r).2)
+    | ["cbthrow"] => ((Tr.cbEnd true (parseTr fuel r).1), (parseTr fuel r).2)
+    | ["begin", name] =>
+      let p1 := parseTr fuel r
+      let p2 := parseTr fuel p1.2
+      (Tr.nested name p1.1 p2.1, p2.2)
+    | "set" :: args =>
+      match parseSetter args with
+      | some sc => (Tr.setter sc (parseTr fuel r).1, (parseTr fuel r).2)
+      | none => (Tr.setter ⟨"<bad-set>", emptyEnv⟩ (parseTr fuel r).1, (parseTr fuel r).2)
+    | _ => (Tr.setter ⟨"<bad-op>", emptyEnv⟩ (parseTr fuel r).1, (parseTr fuel r).2)
 
 def step (s : DS) : List String → DS × List String
   | ["case", k] => ({}, ["case " ++ k])
-  | ["fresh"] => ({ s with st := ⟨false, []⟩ }, [])
-  | ["begin", name] => ({ s with call := some name, cbs := [], acts := none, stageThrows := false }, [])
-  | ["cb"] => ({ s with acts := some [] }, [])
-  | ["cbend"] => ({ s with cbs := s.cbs ++ [⟨s.acts.getD [], false⟩], acts := none }, [])
-  | ["cbthrow"] => ({ s with cbs := s.cbs ++ [⟨s.acts.getD [], true⟩], acts := none }, [])
-  | ["stagethrow"] => ({ s with stageThrows := true }, [])
-  | ["stagereturn"] => (s, [])
-  | ["end"] =>
-    match s.call.bind (fun n => ApiIR.lookup Api.placementCalls n) with
-    | some f =>
-      let r := execPlacement Api.setters f.body ⟨s.cbs, s.stageThrows⟩ s.st
-      ({ s with st := r.st, call := none, cbs := [], acts := none }, r.log ++ [endLine r])
-    | none => (s, ["end unknown-call"])
-  | "set" :: rest =>
-    match parseSetter rest with
-    | some sc =>
-      match s.acts with
-      | some a => ({ s with acts := some (a ++ [sc]) }, [])
-      | none =>
-        let r := runSetter Api.setters sc s.st
-        ({ s with st := r.st }, [setterLine sc.name s.st r])
-    | none => (s, ["bad-set"])
   | [] => (s, [])
-  | ws => (s, ["bad-op " ++ " ".intercalate ws])
+  | ws =>
+    if s.depth = 0 then
+      match ws with
+      | ["fresh"] => ({ s with st := ⟨false, []⟩ }, [])
+      | ["begin", name] => ({ s with call := some name, depth := 1, evs := [] }, [])
+      | "set" :: rest =>
+        match parseSetter rest with
+        | some sc =>
+          let r := runSetter Api.setters sc s.st
+          ({ s with st := r.st }, [setterLine sc.name s.st r])
+        | none => (s, ["bad-set"])
+      | _ => (s, ["bad-op " ++ " ".intercalate ws])
+    else
+      match ws with
+      | ["begin", _] => ({ s with depth := s.depth + 1, evs := ws :: s.evs }, [])
+      | ["end"] =>
+        if s.depth = 1 then
+          match s.call.bind (fun n => ApiIR.lookup Api.placementCalls n) with
+          | some f =>
+            let evs := s.evs.reverse
+            let t := (parseTr (evs.length + 1) evs).1
+            let r := execPlacement Api.setters Api.placementCalls f.body t s.st
+            ({ s with st := r.st, call := none, depth := 0, evs := [] }, r.log ++ [endLine r])
+          | none => ({ s with call := none, depth := 0, evs := [] }, ["end unknown-call"])
+        else ({ s with depth := s.depth - 1, evs := ws :: s.evs }, [])
+      | _ => ({ s with evs := ws :: s.evs }, [])
 
 def main : IO Unit := Driver.run step {}
